@@ -956,12 +956,476 @@ static void tcp_flag_case(Src& s, Ctx& ctx) {
     ctx.sample(hist);
 }
 
+// ================================================================================================================
+// Coverage extension (2026-10-04): accessors that are neither one-argument table rows nor reached by any generator
+// ================================================================================================================
+namespace c15x {
+using namespace Tins;
+using c15::Bytes;
+
+static std::string view_text_of(const LayerView& v) { std::string t; for (const FieldView& f : v.fields) t += f.name + "=" + f.value + ";"; return t; }
+
+// a prior state for a freshly made object: 0 default | 1 setter storm | 2 class(buffer,size) of random bytes | 3 both
+template <class T> static std::unique_ptr<T> prior_state(Src& s, Ctx& ctx, size_t min_size, std::string& hist, T* (*make)()) {
+    std::unique_ptr<T> p;
+    unsigned mode = (unsigned)s.weighted({2, 4, 3, 2});
+    if (mode >= 2) {
+        Bytes raw = s.bytes(min_size + (size_t)s.range(0, 24));
+        try {
+            p.reset(new T(raw.data(), (uint32_t)raw.size()));
+            p->inner_pdu(nullptr);
+            hist += "parse(" + verif::hex(raw, 96) + ")";
+        } catch (const malformed_packet&) { ctx.label("parse-rejected"); }
+    }
+    if (!p) { p.reset(make()); if (mode >= 2) mode = 1; }
+    if (mode == 1 || mode == 3) {
+        unsigned n = verif::n_setters(*p), steps = 1 + (unsigned)s.range(0, 5);
+        for (unsigned i = 0; i < steps && n; ++i) {
+            Bytes step = s.bytes(s.u8() & 31);
+            Src sub(step.data(), step.size());
+            verif::SetterCtx sc(sub, "SDT");
+            unsigned k = (unsigned)sub.pick(n);
+            if (verif::apply_setter(*p, k, sc) && sc.applied) hist += " " + sc.describe();
+        }
+    }
+    ctx.label(mode == 0 ? "x-state:default" : mode == 1 ? "x-state:setter-storm" : mode == 2 ? "x-state:parsed" : "x-state:parsed+storm");
+    return p;
+}
+template <class T> static T* mk_default() { return new T(); }
+
+// ---- 1. Capability Information bits of the 802.11 management frames (positions: ref/wire_positions.h) -------------------
+typedef Dot11ManagementFrame::capability_information CI;
+struct CapAcc { const char* name; void (CI::*set)(bool); bool (CI::*get)() const; };
+static const CapAcc CAPS[16] = {
+    {"ess", &CI::ess, &CI::ess}, {"ibss", &CI::ibss, &CI::ibss}, {"cf_poll", &CI::cf_poll, &CI::cf_poll}, {"cf_poll_req", &CI::cf_poll_req, &CI::cf_poll_req},
+    {"privacy", &CI::privacy, &CI::privacy}, {"short_preamble", &CI::short_preamble, &CI::short_preamble}, {"pbcc", &CI::pbcc, &CI::pbcc},
+    {"channel_agility", &CI::channel_agility, &CI::channel_agility}, {"spectrum_mgmt", &CI::spectrum_mgmt, &CI::spectrum_mgmt}, {"qos", &CI::qos, &CI::qos},
+    {"sst", &CI::sst, &CI::sst}, {"apsd", &CI::apsd, &CI::apsd}, {"radio_measurement", &CI::radio_measurement, &CI::radio_measurement},
+    {"dsss_ofdm", &CI::dsss_ofdm, &CI::dsss_ofdm}, {"delayed_block_ack", &CI::delayed_block_ack, &CI::delayed_block_ack},
+    {"immediate_block_ack", &CI::immediate_block_ack, &CI::immediate_block_ack},
+};
+
+template <class T> static void cap_case(Src& s, Ctx& ctx, const char* cls) {
+    const int base_off = wirepos::dot11_capability_offset(cls);
+    std::string hist = std::string(cls) + ": ";
+    std::unique_ptr<T> p = prior_state<T>(s, ctx, (size_t)base_off + 2, hist, mk_default<T>);
+    const std::string C = std::string("C15:") + cls + ".capabilities";
+    Bytes w0 = p->serialize(), before = p->serialize();
+    auto field_off = [&](const Bytes& w) { return (size_t)base_off + wirepos::dyn_shift(wirepos::DOT11_AFTER_ADDR4, w.data(), w.size()); };
+    VCHECK(ctx, before.size() >= field_off(before) + 2, C + ":serialisation-size", hist << " serialises to " << before.size() << " octets");
+    // the model starts from the wire: the getters of the prior state must agree with the specified positions
+    unsigned model = before[field_off(before)] | (before[field_off(before) + 1] << 8);
+    unsigned steps = 1 + (unsigned)s.range(0, 7);
+    for (unsigned i = 0; i <= steps; ++i) {
+        unsigned k = 0;
+        bool v = false;
+        LayerView lv0 = view_layer(*p);
+        if (i > 0) {
+            k = (unsigned)s.pick(16);
+            v = s.boolean();
+            const int bit = wirepos::dot11_capability_bit(CAPS[k].name);
+            (p->capabilities().*CAPS[k].set)(v);
+            hist += std::string(" ") + CAPS[k].name + "(" + (v ? "1" : "0") + ")";
+            model = v ? (model | (1u << bit)) : (model & ~(1u << bit));
+        }
+        const std::string sig = i ? C + "." + CAPS[k].name : C;
+        // getters: every bit through its own accessor, on the const and on the non-const path
+        const T& cp = *p;
+        for (unsigned j = 0; j < 16; ++j) {
+            const int bit = wirepos::dot11_capability_bit(CAPS[j].name);
+            bool want = (model >> bit) & 1;
+            bool got = (cp.capabilities().*CAPS[j].get)();
+            if (i && j == k) VCHECK(ctx, got == want, sig + ":getter-differs", hist << ": " << CAPS[j].name << "() returns " << got);
+            else VCHECK(ctx, got == want, sig + ":neighbour-changed:" + CAPS[j].name, hist << ": " << CAPS[j].name << "() returns " << got << ", expected " << want);
+        }
+        // every other getter of the frame keeps its value
+        if (i) {
+            LayerView lv1 = view_layer(*p);
+            for (size_t f = 0; f < lv0.fields.size() && f < lv1.fields.size(); ++f) {
+                if (lv0.fields[f].name == "capabilities") continue;
+                VCHECK(ctx, lv0.fields[f].value == lv1.fields[f].value, sig + ":neighbour-changed:" + lv0.fields[f].name,
+                       hist << " changed " << lv0.fields[f].name << " from " << lv0.fields[f].value << " to " << lv1.fields[f].value);
+            }
+        }
+        // the wire: before with exactly the specified bit replaced
+        Bytes after = p->serialize();
+        VCHECK(ctx, after.size() == before.size(), sig + ":serialisation-size-changed", hist << " " << before.size() << " -> " << after.size());
+        if (after.size() != before.size()) return;
+        Bytes expect = before;
+        size_t off = field_off(expect);
+        expect[off] = (uint8_t)model;
+        expect[off + 1] = (uint8_t)(model >> 8);
+        if (after != expect) {
+            bool in_field = true;
+            for (size_t b = 0; b < after.size(); ++b) if (after[b] != expect[b] && b != off && b != off + 1) in_field = false;
+            VCHECK(ctx, false, sig + (in_field ? ":wire-value" : ":serialisation-changed-outside-field"),
+                   hist << ": wire " << verif::hex(after, 64) << ", specified " << verif::hex(expect, 64) << " (Capability Information at octet " << off << ", little endian)");
+        }
+        // and a parser of those bytes gets the bits back
+        T q(after.data(), (uint32_t)after.size());
+        const T& cq = q;
+        for (unsigned j = 0; j < 16; ++j) {
+            const int bit = wirepos::dot11_capability_bit(CAPS[j].name);
+            VCHECK(ctx, (cq.capabilities().*CAPS[j].get)() == (bool)((model >> bit) & 1), sig + ":reparse-differs", hist << ": " << CAPS[j].name << " after re-parse");
+        }
+        before = after;
+    }
+    ctx.label("dot11-capability-block");
+    ctx.label(std::string("cap:") + cls);
+    ctx.hash("cap"); ctx.hash(hist);
+    ctx.nontrivial(steps >= 2);
+    ctx.sample(hist.substr(0, 300));
+    if (ctx.logging()) ctx.log(hist);
+}
+static void dot11_capability_case(Src& s, Ctx& ctx) {
+    switch (s.pick(6)) {
+        case 0: cap_case<Dot11Beacon>(s, ctx, "Dot11Beacon"); break;
+        case 1: cap_case<Dot11ProbeResponse>(s, ctx, "Dot11ProbeResponse"); break;
+        case 2: cap_case<Dot11AssocRequest>(s, ctx, "Dot11AssocRequest"); break;
+        case 3: cap_case<Dot11AssocResponse>(s, ctx, "Dot11AssocResponse"); break;
+        case 4: cap_case<Dot11ReAssocRequest>(s, ctx, "Dot11ReAssocRequest"); break;
+        default: cap_case<Dot11ReAssocResponse>(s, ctx, "Dot11ReAssocResponse"); break;
+    }
+}
+
+// ---- 2. ICMP composite helpers (include/tins/icmp.h; message layouts RFC 792, codes RFC 792 / RFC 1122 3.2.2.5) ----------
+// Each helper is documented to set the message type and the fields named by its parameters.  Expectation per helper:
+// the header octets it must write (type 0, code 1, identifier 4-5, sequence number 6-7, gateway address 4-7, pointer 4),
+// their values, and - for every other octet and every getter that does not read one of those octets - no change.
+// set_echo_* / set_info_*: the documentation names id and seq only and RFC 792 fixes code 0 for these messages; libtins
+// resets the code for the information messages and keeps it for echo: no claim on the code octet for these four.
+static void icmp_helper_case(Src& s, Ctx& ctx) {
+    std::string hist = "ICMP: ";
+    std::unique_ptr<ICMP> p = prior_state<ICMP>(s, ctx, 8, hist, mk_default<ICMP>);
+    Bytes payload = s.bytes((size_t)s.range(0, 3));
+    if (s.boolean()) { p->inner_pdu(new RawPDU(payload.begin(), payload.end())); hist += " +RawPDU(" + verif::hex(payload, 8) + ")"; }
+    Bytes w0, before;
+    try { w0 = p->serialize(); before = p->serialize(); } catch (const exception_base&) { ctx.label("prior-state-not-serialisable"); return; }
+    const LayerView lv0 = view_layer(*p);
+    static const char* NAME[] = {"set_echo_request", "set_echo_reply", "set_info_request", "set_info_reply", "set_dest_unreachable",
+                                 "set_time_exceeded", "set_param_problem", "set_source_quench", "set_redirect"};
+    const unsigned op = (unsigned)s.pick(9);
+    const std::string sig = std::string("C15:ICMP.") + NAME[op];
+    // expectation: octet -> value; -1 = written but no claim on the value; -2 = must differ from 0
+    std::map<size_t, int> want;
+    std::map<std::string, std::string> getters;   // named getters and their expected rendering
+    uint16_t id = (uint16_t)s.edgy(16), seq = (uint16_t)s.edgy(16);
+    uint8_t code = (uint8_t)s.edgy(8), octet = (uint8_t)s.edgy(8);
+    bool flag = s.boolean();
+    Bytes gwb = s.bytes(4);
+    std::string gws = std::to_string(gwb[0]) + "." + std::to_string(gwb[1]) + "." + std::to_string(gwb[2]) + "." + std::to_string(gwb[3]);
+    std::ostringstream call;
+    auto echo_like = [&](unsigned type) {
+        want[0] = (int)type; want[1] = -1; want[4] = id >> 8; want[5] = id & 0xff; want[6] = seq >> 8; want[7] = seq & 0xff;
+        getters["type"] = std::to_string(type); getters["id"] = std::to_string(id); getters["sequence"] = std::to_string(seq);
+        call << NAME[op] << "(" << id << "," << seq << ")";
+    };
+    switch (op) {
+        case 0: p->set_echo_request(id, seq); echo_like(8); break;      // RFC 792: echo = 8
+        case 1: p->set_echo_reply(id, seq); echo_like(0); break;        //          echo reply = 0
+        case 2: p->set_info_request(id, seq); echo_like(15); break;     //          information request = 15
+        case 3: p->set_info_reply(id, seq); echo_like(16); break;       //          information reply = 16
+        case 4: p->set_dest_unreachable(); want[0] = 3; getters["type"] = "3"; call << NAME[op] << "()"; break;
+        case 5:  // RFC 792 time exceeded = 11; code 0 = time to live exceeded in transit, 1 = fragment reassembly time exceeded
+            p->set_time_exceeded(flag); want[0] = 11; want[1] = flag ? 0 : 1;
+            getters["type"] = "11"; getters["code"] = flag ? "0" : "1"; call << NAME[op] << "(" << flag << ")"; break;
+        case 6:  // RFC 792 parameter problem = 12; code 0 = the pointer (octet 4) indicates the error; without a pointer the code is not 0
+            p->set_param_problem(flag, octet); want[0] = 12; getters["type"] = "12";
+            if (flag) { want[1] = 0; want[4] = octet; getters["code"] = "0"; getters["pointer"] = std::to_string(octet); }
+            else want[1] = -2;
+            call << NAME[op] << "(" << flag << "," << (int)octet << ")"; break;
+        case 7: p->set_source_quench(); want[0] = 4; getters["type"] = "4"; call << NAME[op] << "()"; break;
+        default:  // RFC 792 redirect = 5; gateway internet address in octets 4-7
+            p->set_redirect(code, IPv4Address(gws)); want[0] = 5; want[1] = code;
+            for (size_t i = 0; i < 4; ++i) want[4 + i] = gwb[i];
+            getters["type"] = "5"; getters["code"] = std::to_string(code); getters["gateway"] = gws;
+            call << NAME[op] << "(" << (int)code << "," << gws << ")"; break;
+    }
+    hist += " " + call.str();
+    if (ctx.logging()) { ctx.log(hist); ctx.log("  before: " + view_text_of(lv0)); }
+    const LayerView lv1 = view_layer(*p);
+    if (ctx.logging()) ctx.log("  after:  " + view_text_of(lv1));
+    // getters
+    for (size_t f = 0; f < lv0.fields.size() && f < lv1.fields.size(); ++f) {
+        const FieldView &a = lv0.fields[f], &b = lv1.fields[f];
+        auto g = getters.find(a.name);
+        if (g != getters.end()) { VCHECK(ctx, b.value == g->second, sig + ":getter-differs:" + a.name, hist << ": " << a.name << "() returns " << b.value << ", expected " << g->second); continue; }
+        if (a.kind == 'S' || a.kind == 'D' || a.value == b.value) continue;
+        // a getter that reads one of the written octets may move (RFC 792 "rest of header" variants share octets 4-7)
+        const wirepos::Pos* pos = wirepos::find("ICMP", a.name);
+        if (!pos) pos = wirepos::find("ICMP", a.name, true);
+        bool shares = false;
+        if (pos) for (auto& kv : want) if (kv.first >= pos->byte_off && kv.first < pos->byte_off + (size_t)(pos->width + 7) / 8) shares = true;
+        if (shares) { ctx.label("alias-or-derived-getter-moved"); continue; }
+        VCHECK(ctx, false, sig + ":neighbour-changed:" + a.name, hist << " changed " << a.name << " from " << a.value << " to " << b.value);
+    }
+    // wire: the first 8 octets (RFC 792 common header), and everything behind them when the message keeps its size
+    Bytes after;
+    try { after = p->serialize(); } catch (const exception_base&) { ctx.label("state-after-set-not-serialisable"); return; }
+    VCHECK(ctx, after.size() >= 8 && before.size() >= 8, sig + ":serialisation-size", hist);
+    std::vector<c15::Range> mask;
+    c15::derived_ranges(*p, before, mask);
+    c15::derived_ranges(*p, after, mask);
+    const size_t cmp = after.size() == before.size() ? after.size() : 8;
+    if (after.size() != before.size()) ctx.label("header-variant-changed");
+    for (size_t b = 0; b < cmp; ++b) {
+        auto w = want.find(b);
+        if (w != want.end() && w->second == -1) continue;
+        bool derived = true;
+        for (unsigned k = 0; k < 8; ++k) if (!c15::in_ranges(mask, b * 8 + k)) derived = false;
+        if (derived) continue;
+        if (w != want.end() && w->second == -2) { VCHECK(ctx, after[b] != 0, sig + ":wire-value", hist << ": octet " << b << " is 0"); continue; }
+        int expect = w != want.end() ? w->second : before[b];
+        VCHECK(ctx, after[b] == expect, sig + (w != want.end() ? ":wire-value" : ":serialisation-changed-outside-field"),
+               hist << ": octet " << b << " is " << (int)after[b] << ", expected " << expect << "; before " << verif::hex(before, 32) << " after " << verif::hex(after, 32));
+    }
+    // a parser of those bytes gets the named fields back
+    try {
+        ICMP q(after.data(), (uint32_t)after.size());
+        LayerView lq = view_layer(q);
+        for (auto& g : getters) {
+            const FieldView* f = lq.find(g.first);
+            VCHECK(ctx, f && f->value == g.second, sig + ":reparse-differs:" + g.first, hist << ": " << g.first << " after re-parse " << (f ? f->value : "?") << ", expected " << g.second);
+        }
+    } catch (const malformed_packet&) { VCHECK(ctx, false, sig + ":reparse-rejected", hist << " wire " << verif::hex(after, 64)); }
+    ctx.label("icmp-helper-block");
+    ctx.label(std::string("icmp:") + NAME[op]);
+    ctx.hash("icmphelper"); ctx.hash(hist);
+    ctx.nontrivial(true);
+    ctx.sample(hist.substr(0, 300));
+}
+
+// ---- 3. LLC(dsap, ssap), add_xid_information, clear_information_fields (include/tins/llc.h, IEEE 802.2) -------------------
+// LLC(dsap, ssap): "The control field is set to 0": two zero control octets = an I-format PDU with N(S) = N(R) = P = 0.
+// add_xid_information: "Only applied if format is UNNUMBERED and function is XID"; IEEE 802.2 5.4.1.1.2: the XID information
+// field is three octets (format identifier, types/classes, receive window) that follow the control octet (XID = 0xAF / 0xBF).
+// clear_information_fields: "Delete all the information fields added".
+static void llc_info_case(Src& s, Ctx& ctx) {
+    unsigned dsap = (unsigned)s.edgy(8), ssap = (unsigned)s.edgy(8);
+    bool two_arg = !s.chance(20);
+    std::unique_ptr<LLC> l(two_arg ? new LLC((uint8_t)dsap, (uint8_t)ssap) : new LLC());
+    std::string hist = two_arg ? "LLC(" + std::to_string(dsap) + "," + std::to_string(ssap) + ")" : "LLC()";
+    if (!two_arg) { l->dsap((uint8_t)dsap); l->ssap((uint8_t)ssap); hist += " dsap=" + std::to_string(dsap) + " ssap=" + std::to_string(ssap); }
+    {
+        VCHECK(ctx, l->dsap() == dsap && l->ssap() == ssap, "C15:LLC.LLC(dsap,ssap):getter-differs", hist << ": dsap() " << (int)l->dsap() << " ssap() " << (int)l->ssap());
+        VCHECK(ctx, l->group() == (bool)(dsap & 1) && l->response() == (bool)(ssap & 1), "C15:LLC.LLC(dsap,ssap):getter-differs", hist << ": group/response");
+        VCHECK(ctx, l->type() == LLC::INFORMATION && l->send_seq_number() == 0 && l->receive_seq_number() == 0 && !l->poll_final(), "C15:LLC.LLC(dsap,ssap):control-not-zero", hist);
+        Bytes y = l->serialize();
+        Bytes want = {(uint8_t)dsap, (uint8_t)ssap, 0, 0};
+        VCHECK(ctx, y == want, "C15:LLC.LLC(dsap,ssap):wire-value", hist << " serialises as " << verif::hex(y, 16));
+    }
+    static const LLC::Format F[] = {LLC::UNNUMBERED, LLC::INFORMATION, LLC::SUPERVISORY};
+    static const LLC::ModifierFunctions M[] = {LLC::XID, LLC::UI, LLC::TEST, LLC::SABME, LLC::DISC, LLC::UA, LLC::DM, LLC::FRMR};
+    LLC::Format fmt = F[s.weighted({6, 1, 1})];
+    unsigned mod = M[s.weighted({6, 1, 1, 1, 1, 1, 1, 1})];
+    l->type(fmt);
+    hist += std::string(" type=") + (fmt == LLC::UNNUMBERED ? "U" : fmt == LLC::INFORMATION ? "I" : "S");
+    if (fmt == LLC::UNNUMBERED) { l->modifier_function((LLC::ModifierFunctions)mod); hist += " M=" + std::to_string(mod); }
+    const bool xid_frame = fmt == LLC::UNNUMBERED && mod == LLC::XID;
+    Bytes info;      // the information fields the model holds
+    unsigned adds = 0;
+    Bytes payload = s.bytes((size_t)s.range(0, 4));
+    if (s.boolean()) { l->inner_pdu(new RawPDU(payload.begin(), payload.end())); hist += " +RawPDU(" + verif::hex(payload, 8) + ")"; } else payload.clear();
+    unsigned steps = 1 + (unsigned)s.range(0, 6);
+    for (unsigned i = 0; i < steps; ++i) {
+        unsigned op = (unsigned)s.weighted({5, 2, 1, 1});
+        std::string what;
+        if (op == 0) {
+            if (adds >= 6) continue;   // information_field_length_ is an octet; IEEE 802.2 defines one XID information field per PDU
+            uint8_t a = (uint8_t)s.edgy(8), b = (uint8_t)s.edgy(8), c = (uint8_t)s.edgy(8);
+            l->add_xid_information(a, b, c);
+            ++adds;
+            hist += " add_xid_information(" + std::to_string(a) + "," + std::to_string(b) + "," + std::to_string(c) + ")";
+            what = "add_xid_information";
+            if (xid_frame) { info.push_back(a); info.push_back(b); info.push_back(c); }
+        } else if (op == 1) {
+            l->clear_information_fields();
+            info.clear();
+            hist += " clear_information_fields()";
+            what = "clear_information_fields";
+        } else if (op == 2) {
+            dsap = (unsigned)s.edgy(8); l->dsap((uint8_t)dsap); hist += " dsap=" + std::to_string(dsap); what = "dsap";
+        } else {
+            std::unique_ptr<LLC> c(l->clone()); l = std::move(c); hist += " clone"; what = "clone";
+        }
+        const std::string sig = "C15:LLC." + what;
+        const size_t ctl = fmt == LLC::UNNUMBERED ? 1 : 2;
+        if (!xid_frame && what == "add_xid_information" && l->header_size() != 2 + ctl) {
+            // documented: "Only applied if format is UNNUMBERED and function is XID"
+            VCHECK(ctx, false, "C15:LLC.add_xid_information:applied-outside-xid-frame", hist << ": header_size() " << l->header_size() << ", an LLC header of this format has " << 2 + ctl << " octets");
+            ctx.label("llc-info-block");
+            return;   // (open finding) the object is no longer what the documentation describes
+        }
+        VCHECK(ctx, l->header_size() == 2 + ctl + info.size(), sig + ":header-size", hist << ": header_size() " << l->header_size() << ", expected " << 2 + ctl + info.size());
+        VCHECK(ctx, l->dsap() == dsap && l->ssap() == ssap && l->type() == (uint8_t)fmt && (fmt != LLC::UNNUMBERED || l->modifier_function() == mod), sig + ":neighbour-changed", hist);
+        Bytes y = l->serialize();
+        Bytes want = {(uint8_t)dsap, (uint8_t)ssap};
+        if (fmt == LLC::UNNUMBERED) want.push_back((uint8_t)(0x03 | ((mod >> 3) << 2) | ((mod & 7) << 5)));   // IEEE 802.2 U format: 11 MM P MMM, P = 0
+        else { want.push_back(fmt == LLC::SUPERVISORY ? 0x01 : 0x00); want.push_back(0x00); }
+        want.insert(want.end(), info.begin(), info.end());
+        want.insert(want.end(), payload.begin(), payload.end());
+        VCHECK(ctx, y == want, sig + ":wire-value", hist << " serialises as " << verif::hex(y, 48) << ", expected " << verif::hex(want, 48));
+        if (y == want) {   // a parser keeps the header fields (libtins does not rebuild information fields: they come back as payload)
+            LLC q(y.data(), (uint32_t)y.size());
+            VCHECK(ctx, q.dsap() == dsap && q.ssap() == ssap && q.type() == (uint8_t)fmt && q.modifier_function() == l->modifier_function(), sig + ":reparse-differs", hist);
+        }
+    }
+    ctx.label("llc-info-block");
+    if (xid_frame && adds) ctx.label("llc-xid-information-added");
+    ctx.hash("llcinfo"); ctx.hash(hist);
+    ctx.nontrivial(adds >= 1);
+    ctx.sample(hist.substr(0, 300));
+    if (ctx.logging()) ctx.log(hist);
+}
+
+// ---- 4. IP::frag_off (deprecated 16-bit accessor) against flags / fragment_offset (RFC 791 3.1: Flags(3) Fragment Offset(13),
+//         octets 6-7, network order) ---------------------------------------------------------------------------------------
+static IP* mk_ip() { return new IP("10.0.0.2", "10.0.0.1"); }
+static void ip_frag_off_case(Src& s, Ctx& ctx) {
+    std::string hist = "IP: ";
+    std::unique_ptr<IP> p = prior_state<IP>(s, ctx, 20, hist, mk_ip);
+    if (p->src_addr() == IPv4Address()) { p->src_addr("10.0.0.1"); ctx.excluded("parentless-ip-source-0.0.0.0"); }
+    Bytes pl = s.bytes((size_t)s.range(0, 3));
+    p->inner_pdu(new RawPDU(pl.begin(), pl.end()));
+    Bytes w0, before;
+    try { w0 = p->serialize(); before = p->serialize(); } catch (const exception_base&) { ctx.label("prior-state-not-serialisable"); return; }
+    unsigned model = (before[6] << 8) | before[7];
+    unsigned steps = 1 + (unsigned)s.range(0, 4);
+    for (unsigned i = 0; i < steps; ++i) {
+        const LayerView lv0 = view_layer(*p);
+        unsigned op = (unsigned)s.weighted({4, 2, 2});
+        std::string what;
+        if (op == 0) {
+            unsigned v = (unsigned)s.edgy(16);
+            p->frag_off((uint16_t)v);
+            model = v;
+            what = "frag_off";
+            hist += " frag_off(" + std::to_string(v) + ")";
+        } else if (op == 1) {
+            unsigned f = (unsigned)s.range(0, 7);
+            p->flags((IP::Flags)f);
+            model = (model & 0x1fff) | (f << 13);
+            what = "flags";
+            hist += " flags(" + std::to_string(f) + ")";
+        } else {
+            unsigned o = (unsigned)s.edgy(13);
+            p->fragment_offset((small_uint<13>)o);
+            model = (model & 0xe000) | o;
+            what = "fragment_offset";
+            hist += " fragment_offset(" + std::to_string(o) + ")";
+        }
+        const std::string sig = "C15:IP." + what;
+        const IP& c = *p;
+        VCHECK(ctx, c.frag_off() == model, sig + ":getter-differs:frag_off", hist << ": frag_off() returns " << c.frag_off() << ", expected " << model);
+        VCHECK(ctx, (unsigned)c.flags() == (model >> 13), sig + ":getter-differs:flags", hist << ": flags() returns " << (unsigned)c.flags() << ", expected " << (model >> 13));
+        VCHECK(ctx, (unsigned)c.fragment_offset() == (model & 0x1fff), sig + ":getter-differs:fragment_offset", hist << ": fragment_offset() returns " << (unsigned)c.fragment_offset());
+        VCHECK(ctx, c.is_fragmented() == ((model & 0x3fff) != 0), sig + ":getter-differs:is_fragmented", hist);   // ip.h: MF set or offset != 0
+        const LayerView lv1 = view_layer(*p);
+        for (size_t f = 0; f < lv0.fields.size() && f < lv1.fields.size(); ++f) {
+            const std::string& n = lv0.fields[f].name;
+            if (n == "flags" || n == "fragment_offset" || n == "is_fragmented") continue;
+            VCHECK(ctx, lv0.fields[f].value == lv1.fields[f].value, sig + ":neighbour-changed:" + n, hist << " changed " << n << " from " << lv0.fields[f].value << " to " << lv1.fields[f].value);
+        }
+        Bytes after;
+        try { after = p->serialize(); } catch (const exception_base&) { ctx.label("state-after-set-not-serialisable"); return; }
+        VCHECK(ctx, after.size() == before.size(), sig + ":serialisation-size-changed", hist);
+        if (after.size() != before.size()) return;
+        for (size_t b = 0; b < after.size(); ++b) {
+            if (b == 10 || b == 11) continue;   // RFC 791 header checksum
+            int expect = b == 6 ? (int)(model >> 8) : b == 7 ? (int)(model & 0xff) : before[b];
+            VCHECK(ctx, after[b] == expect, sig + ((b == 6 || b == 7) ? ":wire-value" : ":serialisation-changed-outside-field"),
+                   hist << ": octet " << b << " is " << (int)after[b] << ", expected " << expect);
+        }
+        IP q(after.data(), (uint32_t)after.size());
+        const IP& cq = q;
+        VCHECK(ctx, cq.frag_off() == model && (unsigned)cq.flags() == (model >> 13) && (unsigned)cq.fragment_offset() == (model & 0x1fff), sig + ":reparse-differs", hist);
+        before = after;
+    }
+    ctx.label("ip-frag-off-block");
+    ctx.hash("ipfragoff"); ctx.hash(hist);
+    ctx.nontrivial(steps >= 2);
+    ctx.sample(hist.substr(0, 300));
+    if (ctx.logging()) ctx.log(hist);
+}
+
+// ---- 5. RTP padding (RFC 3550 5.1: P = bit 2 of octet 0 (mask 0x20): "the packet contains one or more additional padding
+//         octets at the end which are not part of the payload.  The last octet of the padding contains a count of how many
+//         padding octets should be ignored, including itself") ---------------------------------------------------------
+static void rtp_padding_case(Src& s, Ctx& ctx) {
+    std::string hist = "RTP: ";
+    std::unique_ptr<RTP> p(new RTP());
+    {   // prior state: a few setters and list elements
+        unsigned n = verif::n_setters(*p), steps = (unsigned)s.range(0, 5);
+        for (unsigned i = 0; i < steps; ++i) {
+            Bytes step = s.bytes(s.u8() & 15);
+            Src sub(step.data(), step.size());
+            verif::SetterCtx sc(sub, "SDT");
+            if (verif::apply_setter(*p, (unsigned)sub.pick(n), sc) && sc.applied) hist += " " + sc.describe();
+        }
+        unsigned nc = (unsigned)s.range(0, 3);
+        for (unsigned i = 0; i < nc; ++i) p->add_csrc_id((uint32_t)s.edgy(32));
+        if (nc) hist += " +" + std::to_string(nc) + " csrc";
+    }
+    Bytes pl = s.bytes((size_t)s.range(0, 6));
+    if (s.chance(75)) { p->inner_pdu(new RawPDU(pl.begin(), pl.end())); hist += " +RawPDU(" + verif::hex(pl, 8) + ")"; } else pl.clear();
+    Bytes w0 = p->serialize(), before = p->serialize();   // no padding yet
+    VCHECK(ctx, p->padding_size() == 0 && p->padding_bit() == 0 && (before[0] & 0x20) == 0, "C15:RTP.padding_size:default-not-zero", hist);
+    const size_t hdr = before.size() - pl.size();
+    unsigned steps = 1 + (unsigned)s.range(0, 3);
+    for (unsigned i = 0; i < steps; ++i) {
+        const LayerView lv0 = view_layer(*p);
+        unsigned n = s.chance(25) ? 0 : (unsigned)s.edgy(8);
+        p->padding_size((uint8_t)n);
+        hist += " padding_size(" + std::to_string(n) + ")";
+        const std::string sig = "C15:RTP.padding_size";
+        const RTP& c = *p;
+        VCHECK(ctx, c.padding_size() == n, sig + ":getter-differs", hist << ": padding_size() returns " << (int)c.padding_size());
+        VCHECK(ctx, (unsigned)c.padding_bit() == (n ? 1u : 0u), sig + ":padding-bit", hist << ": padding_bit() returns " << (int)c.padding_bit());
+        VCHECK(ctx, c.trailer_size() == n, sig + ":trailer-size", hist << ": trailer_size() returns " << c.trailer_size());
+        const LayerView lv1 = view_layer(*p);
+        for (size_t f = 0; f < lv0.fields.size() && f < lv1.fields.size(); ++f) {
+            const std::string& nm = lv0.fields[f].name;
+            if (nm == "padding_size" || nm == "padding_bit" || nm == "trailer_size") continue;
+            VCHECK(ctx, lv0.fields[f].value == lv1.fields[f].value, sig + ":neighbour-changed:" + nm, hist << " changed " << nm << " from " << lv0.fields[f].value << " to " << lv1.fields[f].value);
+        }
+        Bytes after = p->serialize();
+        VCHECK(ctx, after.size() == before.size() + n, sig + ":serialisation-size", hist << ": " << after.size() << " octets, expected " << before.size() + n);
+        if (after.size() != before.size() + n) return;
+        for (size_t b = 0; b < before.size(); ++b) {
+            int expect = b == 0 ? ((before[0] & ~0x20) | (n ? 0x20 : 0)) : before[b];
+            VCHECK(ctx, after[b] == expect, sig + (b == 0 ? ":wire-value" : ":serialisation-changed-outside-field"), hist << ": octet " << b << " is " << (int)after[b] << ", expected " << expect);
+        }
+        if (n) VCHECK(ctx, after.back() == n, sig + ":padding-count-octet", hist << ": last octet " << (int)after.back() << ", expected " << n);
+        // a parser of those bytes strips the padding and keeps the payload
+        RTP q(after.data(), (uint32_t)after.size());
+        const RTP& cq = q;
+        VCHECK(ctx, cq.padding_size() == n && (unsigned)cq.padding_bit() == (n ? 1u : 0u), sig + ":reparse-differs", hist << ": padding_size() after re-parse " << (int)cq.padding_size());
+        const RawPDU* r = q.find_pdu<RawPDU>();
+        Bytes got = r ? Bytes(r->payload().begin(), r->payload().end()) : Bytes();
+        VCHECK(ctx, got == pl, sig + ":reparse-payload-differs", hist << ": payload after re-parse " << verif::hex(got, 16) << ", expected " << verif::hex(pl, 16));
+        VCHECK(ctx, q.header_size() == hdr, sig + ":reparse-differs", hist << ": header_size after re-parse");
+    }
+    ctx.label("rtp-padding-block");
+    ctx.hash("rtppad"); ctx.hash(hist);
+    ctx.nontrivial(true);
+    ctx.sample(hist.substr(0, 300));
+    if (ctx.logging()) ctx.log(hist);
+}
+
+}  // namespace c15x
+
 void prop(Src& s, Ctx& ctx) {
     init_tables();
     Case cs;
     uint8_t sel = s.u8();
     if (sel == 0xfd) { llc_case(s, ctx); return; }
     if (sel == 0xfc) { tcp_flag_case(s, ctx); return; }
+    // coverage extension blocks (selectors 0xe4 .. 0xfb, drawn from the byte that the table cases ignore)
+    if (sel >= 0xf6 && sel <= 0xfb) { c15x::dot11_capability_case(s, ctx); return; }
+    if (sel >= 0xf0 && sel <= 0xf5) { c15x::icmp_helper_case(s, ctx); return; }
+    if (sel >= 0xec && sel <= 0xef) { c15x::llc_info_case(s, ctx); return; }
+    if (sel >= 0xe8 && sel <= 0xeb) { c15x::ip_frag_off_case(s, ctx); return; }
+    if (sel >= 0xe4 && sel <= 0xe7) { c15x::rtp_padding_case(s, ctx); return; }
     if (sel == 0xff || sel == 0xfe) {
         cs.enumerated = true;
         cs.ci = s.u8() % g_classes.size();
